@@ -70,6 +70,24 @@ def run(res, tier, seed, replay):
             want = [(o[0], o[1], o[2]) for o in exp]
             if not exp_abort and dec(mm["model"])[: len(want)] != want and r["compiled"] and got == exp:
                 res.broke(f"correspondence: the generated model of arm {i} disagrees with the compiled arm", json.dumps(dict(case=case, model=mm["model"], observed=want)))
+    # item names that one arm declares and the other arms of the same option set do not: the caller's own item of that name, mentioned in the
+    # clauses, must mean the caller's item (as it does in the sibling arms)
+    caps = armlib.capture_cases(arms)
+    res.extra["names_declared_by_some_arms_of_an_option_set_only"] = sorted({f"arm {a['index']}: {n}" for a, n, _ in caps})
+    for k, (a, name, ref) in enumerate(caps[:12]):
+        wk = os.path.join(vlib.BUILD, "arms", f"capture_{k}")
+        Rc = armlib.compile_and_run(res, [a] + ([ref] if ref else []), wk, capture=name)
+        if Rc is None: break
+        case = dict(arm=a["index"], callers_item=f"const {name}: u64 = 4096", sibling_arm=(ref or {}).get("index"), program=os.path.join(wk, f"arm_{a['index']}.rs"))
+        refline = next((l for l in (Rc.get(ref["index"], {}).get("lines", []) if ref else []) if l.startswith("CAPTURE")), None)
+        want = "CAPTURE " + " ".join(f"{c}={4096 if a[c] else 0}" for c in ("when", "assign", "returns"))
+        r = Rc[a["index"]]
+        if not r["compiled"]:
+            res.violation(f"a well-typed use whose clauses mention the caller's own `{name}` does not compile with this arm (its expansion declares an item of that name)" + (f", while arm {ref['index']} of the same options compiles" if ref and Rc[ref["index"]]["compiled"] else ""), case, r["rustc_msg"])
+            continue
+        got = next((l for l in r["lines"] if l.startswith("CAPTURE")), None)
+        if got != want:
+            res.violation(f"in this arm the caller's own `{name}` (= 4096), mentioned in when / assign / returns, does not mean the caller's item: observed [{got}], expected [{want}]" + (f"; arm {ref['index']} with the same options gives [{refline}]" if ref else ""), case, r["lines"][-3:])
     res.cov["evaluations"] += len(arms) * len(armlib.SCRIPT); res.cov["traces_validated_against_impl"] += len(arms); res.cov["distinct_nontrivial"] += len(kinds)
     res.cov["samples"] += [dict(arm=a["index"], then=[s[0] for s in a["then"]], cond=a["cond"]) for a in arms[:2]]
     res.extra["arms_in_source"] = total; res.extra["arms_translated"] = len(arms); res.extra["arms_with_opaque_nodes"] = [a["index"] for a in arms if a["opaque"]]
